@@ -152,7 +152,7 @@ def run(ctx: Ctx):
             nchecked[0] += 1
             return compare_stats(ctl.model, e, ctl.conc.full)
         for beh in behs:
-            conc = dd.CONCS_OFF[bi % len(dd.CONCS_OFF)]
+            conc = dd.CONCS_OFF_BASE[bi % len(dd.CONCS_OFF_BASE)]
             tr = dc.replay(ctx, beh, conc, cs, f"behaviour {bi}", model_factory=PubModel, observer=observer)
             ctx.evaluations += 1
             ctx.distinct.add(repr([dict(s["op"]) for _, _, s in beh if s["op"]["a"] != "Notif"]))
@@ -170,7 +170,7 @@ def run(ctx: Ctx):
     n = ctx.pick(200, 2500)
     digests = {}
     for i in range(n):
-        conc = dd.CONCS_OFF[i % len(dd.CONCS_OFF)]
+        conc = dd.CONCS_OFF_BASE[i % len(dd.CONCS_OFF_BASE)]
         end_t, warm_t = ctx.rng.choice([(4, 2), (6, 0), (5, 5), (6, 3)])
         ctl = dc.random_run(ctx, ctx.rng, conc, end_t, warm_t, "pause", cmds=CMDS, ncmds=ctx.rng.choice([2, 4, 8]),
                             maxev=ctx.rng.choice([5, 7, 9]), model_factory=PubModel, dispose=False, reinit=(i % 2 == 0))
